@@ -40,7 +40,8 @@ CheckDue(o, p) ==
                   IF Req(o, a).ver = "2" THEN w.rst = 0 /\ o.closedAt < 0 ELSE o.closedAt < 0
             [] d[1] = "not-logged" -> o.excLogs <= p.excAt
             [] OTHER -> FALSE
-        Proto(c) == IF \E d \in p.due : d[1] = c /\ Bad(d) /\ Req(o, d[2]).ver = "2" THEN "h2" ELSE "h1"
+        Proto(c) == IF UnreadLeft(o) /\ c = "not-terminated" THEN "request-messages-unread"
+                    ELSE IF \E d \in p.due : d[1] = c /\ Bad(d) /\ Req(o, d[2]).ver = "2" THEN "h2" ELSE "h1"
         One(c) == IF \E d \in p.due : d[1] = c /\ Bad(d) THEN <<F(c, Proto(c))>> ELSE <<>>
     IN One("no-500") \o One("not-terminated") \o One("not-logged")
 
@@ -54,6 +55,7 @@ Clauses(o, ev, o2, p) ==
                      /\ a \notin p.aborted /\ App(o, a).rstart /\ App(o, a).final /\ App(o, a).sendExc = 0
                      /\ Req(o, a).known /\ Req(o, a).ver = "2" /\ ~Req(o, a).rst
                      /\ App(o, a).done = "return" /\ p.aborted # {} /\ ~o.cerr
+                     /\ ~o.gone /\ ~o.reset /\ ~o.tfail /\ App(o, a).disc = 0
                      /\ Wire(o, a).ends = 0
                 THEN <<F("collateral", "h2")>> ELSE <<>>)
       [] OTHER -> <<>>
